@@ -111,6 +111,11 @@ func (e *concEnv) sendEvents() []kernel.Event {
 					data = append(data, encode(e.plan.Conns[ci].Proto, op)...)
 				}
 				e.next[ci] = len(e.plan.Progs[ci])
+				// half of the ghosts die in the middle of a request: the stream is cut at a
+				// chosen byte (choice 0 = the whole stream)
+				if len(data) > 0 && e.w.Ch.Bool(1, 2, "ghost truncates") {
+					data = data[:len(data)-e.w.Ch.Choose(len(data)+1, "ghost cut")]
+				}
 				e.w.Deliver(e.conns[ci], data)
 				mode := simnet.PeerClosed
 				if e.w.Ch.Bool(1, 3, "ghost silent") {
